@@ -19,6 +19,8 @@
                        the same content, same settings object with the same
                        content outside fft_settings) and the effective FFT length
                        is the same, the result content is identical.
+   Refuse(recs, s)     process() refuses (raises): nothing but the stored FFT length
+                       may have changed, nothing is created.
    Modify*(o)          only o changes - in particular no existing result.      *)
 EXTENDS Heap, Json, IOUtils, SequencesExt
 
@@ -41,6 +43,11 @@ Rule(e, pre, post) ==
                   (i \notin ToSet(e.fftslots)) => post[Role("s")].slots[i] = pre[Role("s")].slots[i]
             /\ (e.repeats # "" /\ e.sameN) =>                            \* Repeatable
                   \A i \in 1..e.ncontent : Dig(post, Role("r"), i) = Dig(pre, e.repeats, i)
+      [] e.op = "Refuse" ->                                            \* process() raised for windows of unequal length (PSD / diffuse field)
+            /\ FrameExcept(pre, post, {Role("s")}) /\ OnlyNew(pre, post, {})
+            /\ e.listIntact
+            /\ \A i \in 1..NSlots(pre, Role("s")) :
+                  (i \notin ToSet(e.fftslots)) => post[Role("s")].slots[i] = pre[Role("s")].slots[i]
       [] e.op = "Modify" ->
             /\ FrameExcept(pre, post, {Role("o")}) /\ OnlyNew(pre, post, {})
       [] OTHER -> FALSE
